@@ -444,6 +444,7 @@ fn main() {
     singular_inactive(&mut cx);
     let n = cx.id;
     file.flush().unwrap();
+    vharness::evalx::exit_on_build_failures("c05");
     eprintln!("c05: {n} records ({count} node programs)");
     let _: Option<GOp> = None;
 }
